@@ -173,6 +173,10 @@ func newMemorySizer(memoryLimitPages uint32, memoryCapacityFromMax bool) memoryS
 	return func(minPages uint32, maxPages *uint32) (min, capacity, max uint32) {
 		if maxPages != nil {
 			if memoryCapacityFromMax {
+				// A valid value over the run-time limit is clamped to the limit, as it is below.
+				if *maxPages <= wasm.MemoryLimitPages && *maxPages > memoryLimitPages {
+					return minPages, memoryLimitPages, memoryLimitPages
+				}
 				return minPages, *maxPages, *maxPages
 			}
 			// This is an invalid value: let it propagate, we will fail later.
